@@ -37,7 +37,8 @@ func main() {
 	res := lib.NewResult("C20")
 	res.Rule = "a case is (value, format specification); non-trivial when the directive carries at least one flag, width or precision, " +
 		"or the specification is a per-type map, or the value is a container, or the outcome is an error; distinct = distinct " +
-		"(value, specification) texts. Families: bounded-exhaustive directive grammar per scalar value (flags x width x precision x 52 letters), " +
+		"(value, specification) texts. Families: bounded-exhaustive directive grammar per scalar value (flags x width x precision x 52 letters; quick tier: every third directive), " +
+		"every value x every letter of its documented set x {plain, alternate, alternate with width and precision}, " +
 		"flag order / repetition / delimiter grammar, containers x container directives, per-type format maps, radix round trips, seeded random"
 	r := &runner{cfg: cfg, res: res, rng: lib.NewRng(cfg.Seed), tagCount: map[string]int{}}
 	r.em = newEmitter(cfg)
@@ -140,6 +141,19 @@ func (r *runner) direct(v Val, pv px.Value, s Spec, ps px.Value, o Obs) []findin
 		fs = append(fs, finding{"total", fmt.Sprintf("no format context for %s: %v", s, err), []string{"fault"}})
 		return fs
 	}
+	if s.Kind == "str" {
+		// the directive given for the value is the format the value is rendered under
+		if f := px.GetFormat(ctx.FormatMap(), pv.PType()); f.OrigFormat() != s.directive() {
+			tag := "directive-ignored"
+			if holdsNaN(v) {
+				// Float[NaN, NaN] does not accept itself (floattype.go:146), GetFormat falls back to %s
+				tag = "nan-directive-ignored"
+			}
+			fs = append(fs, finding{"directive", fmt.Sprintf("%s under %q: the format selected for the value is %q, the directive is ignored (rendering %s)",
+				v, s.directive(), f.OrigFormat(), o), []string{tag}})
+			return fs
+		}
+	}
 	checkTree(v, pv, ctx, o, 0, &fs)
 	return fs
 }
@@ -151,6 +165,18 @@ func safeContext(pv, ps px.Value) (ctx px.FormatContext, err error) {
 		}
 	}()
 	return px.NewFormatContext3(pv, ps)
+}
+
+func holdsNaN(v Val) bool {
+	nan := false
+	v.walk(func(x Val) {
+		if x.K == "float" {
+			if f := x.float(); f != f {
+				nan = true
+			}
+		}
+	})
+	return nan
 }
 
 // mapGrammarClass: the error class of the first directive of the map (depth first) that is outside
